@@ -342,7 +342,44 @@ def attachment_dispatch():
     stems = ["report", "ATT00001", "a b", "x.y"]
     exts = sorted(set(r._EXTRACTOR_REGISTRY) | set(r._EXTENSION_ALIASES)) + ["tar.gz", "bin", "xyz123", ""]
     names = [f"{stems[i % len(stems)]}.{e}" if e else stems[i % len(stems)] for i, e in enumerate(exts)] + ["EXPORT.CSV", "Page.Html"]
-    mimetypes.init()
+    bad = None
+    for cname, setup in [c for c in configs() if c[0] in ("default", "empty")] + [("mime-cross", _mime_cross)]:
+        setup()
+        bad = _attachment_dispatch_under(cname, r, names, mimes)
+        mimetypes.init()
+        if bad:
+            return bad
+    return None
+
+
+def _mime_cross():
+    """a host MIME database (fresh) in which every type of the library's table is registered -- first -- under the extension of
+    a DIFFERENT supported format: anything that asks the host database which extension belongs to a declared type is misled,
+    the documented dispatch (file name, else the library's own table) is not"""
+    from sharepoint2text.parsing.mime_types import MIME_TYPE_MAPPING
+    r = router()
+    for name, setup in configs():
+        if name == "empty":
+            setup()
+    regs = sorted(r._EXTRACTOR_REGISTRY)
+    for k in sorted(MIME_TYPE_MAPPING):
+        ft = MIME_TYPE_MAPPING[k]
+        own = r._EXTRACTOR_REGISTRY.get(ft)
+        i = regs.index(ft) if ft in regs else 0
+        for step in range(1, len(regs)):
+            other = regs[(i + step) % len(regs)]
+            if r._EXTRACTOR_REGISTRY[other] != own:
+                mimetypes.add_type(k, "." + other)
+                break
+
+
+def _attachment_dispatch_under(cname, r, names, mimes):
+    import io
+    from sharepoint2text.parsing.extractors.data_types import EmailAddress, EmailAttachment, EmailContent
+    from sharepoint2text.parsing.mime_types import MIME_TYPE_MAPPING, is_supported_mime_type
+    if cname != "default":
+        # the searches that depend on the host database: names the router cannot route x every declared type
+        names = ["invoice", "ATT00001", "x.bin", "scan.xyz123", "report."] + names[:6]
     spies = Spies()
     try:
         def expected(fn, mt, flag):
@@ -368,7 +405,8 @@ def attachment_dispatch():
                 exc = e
             want = [x for a_ in seq for x in expected(*a_)]
             if exc is not None or spies.calls != want:
-                return ({"attachments (filename, declared mime_type, is_supported_mime_type)": [list(x) for x in seq], "mimetypes": "default"},
+                return ({"attachments (filename, declared mime_type, is_supported_mime_type)": [list(x) for x in seq],
+                         "mimetypes": cname + (f": guess_extension({seq[0][1]!r}) = {mimetypes.guess_extension(seq[0][1])!r}" if cname == "mime-cross" else "")},
                         {"extractor calls (get_extractor(filename), else registry entry of the MIME type; name passed)": want},
                         {"extractor calls": list(spies.calls), "exception": repr(exc) if exc else None},
                         "data_types.py::EmailContent.iterate_supported_attachments")
@@ -478,9 +516,64 @@ def _site_checks(req):
     return None
 
 
+SIGNATURES = {
+    "pdf": b"%PDF-1.4\n%\xe2\xe3\xcf\xd3\n", "rtf": b"{\\rtf1\\ansi hello}", "7z": b"7z\xbc\xaf\x27\x1c\x00\x04", "zip": b"PK\x03\x04\x14\x00",
+    "empty-zip": b"PK\x05\x06" + b"\x00" * 18, "ole2": b"\xd0\xcf\x11\xe0\xa1\xb1\x1a\xe1" + b"\x00" * 24, "gzip": b"\x1f\x8b\x08\x00", "bz2": b"BZh91AY",
+    "xz": b"\xfd7zXZ\x00", "html": b"<!DOCTYPE html><html><body>x</body></html>", "xml": b"<?xml version='1.0'?><a/>", "json": b'{"a": 1}',
+    "eml": b"From: a@x.org\nSubject: s\n\nbody\n", "mbox": b"From a@x.org Mon Jan  1 00:00:00 2024\nSubject: s\n\nb\n", "text": b"plain words\n",
+    "png": b"\x89PNG\r\n\x1a\n", "empty": b"",
+}
+
+
+def read_file_routing():
+    """read_file(p) runs exactly the extractor get_extractor(str(Path(p))) returns, with that path, and raises the
+    format-not-supported error exactly when get_extractor does -- whatever the file CONTAINS (content signatures of every
+    routed family) and whatever its name looks like (no suffix, trailing dot, dot file, unknown / known / upper-case suffix)."""
+    import os, tempfile
+    from pathlib import Path
+    import sharepoint2text
+    from sharepoint2text.parsing.exceptions import ExtractionFileFormatNotSupportedError
+    r = router()
+    names = ["noext", "report.", ".pdf", ".hidden", "item-01F3", "x.unknownext", "x.bin", "x.txt", "X.PDF", "y.rtf", "z.7z", "a.tar.gz", "b.docx", "c.weird"]
+    for cname, setup in configs():
+        if cname in ("mime-table", "mime-variants"):
+            continue
+        setup()
+        spies = Spies()
+        try:
+            with tempfile.TemporaryDirectory() as d:
+                for kind, data in SIGNATURES.items():
+                    for n in names:
+                        p = os.path.join(d, n)
+                        with open(p, "wb") as fh:
+                            fh.write(data)
+                        sp = str(Path(p))
+                        want_label = _label(sp)
+                        del spies.calls[:]
+                        exc = None
+                        try:
+                            list(sharepoint2text.read_file(p))
+                        except Exception as e:  # noqa
+                            exc = e
+                        if want_label is None:
+                            ok = isinstance(exc, ExtractionFileFormatNotSupportedError) and not spies.calls
+                            want = "raises ExtractionFileFormatNotSupportedError, no extractor runs (get_extractor raises for this path)"
+                        else:
+                            ok = exc is None and spies.calls == [(want_label, sp)]
+                            want = f"one call of {want_label} with path {sp!r}"
+                        os.unlink(p)
+                        if not ok:
+                            return ({"file name": n, "content starts with": kind + " signature " + repr(data[:16]), "mimetypes": cname},
+                                    want, f"extractor calls {list(spies.calls)}, exception {exc!r}")
+        finally:
+            spies.close()
+            mimetypes.init()
+    return None
+
+
 def find(req):
     r = router()
-    rf = read_file_dispatch()
+    rf = read_file_dispatch() or read_file_routing()
     if rf is not None:
         return {"reproduced": True, "target": "sharepoint2text/__init__.py::read_file", "inputs": rf[0], "expected": rf[1], "observed": rf[2]}
     oid = (req.get("obligation") or "") + " " + (req.get("function") or "")
